@@ -14,8 +14,8 @@ import reactivex
 from reactivex.scheduler import CatchScheduler
 
 from vlib.core import FAIL, OK, Check
-from vlib.values import Tagged, canon
-from vlib.vtsched import clock_of, enc_abs, enc_rel, escaped, make
+from vlib.values import canon
+from vlib.vtsched import EXC_TYPES, clock_of, enc_abs, enc_rel, escaped, make, make_exc
 
 PROPERTY_ID = "C35"
 LEVEL = "exploration"
@@ -27,7 +27,7 @@ _RULE_VIRTUAL = (
     "inside an action at time t0 through the scheduler handed to that action; period 1..9 units as int/float/timedelta; "
     "state function f in {inc, double, none (returns None), const, append} with initial state in {0, 1, None, 'a'}; stop "
     "by disposing the returned disposable from a scheduler action at a generated time, from inside the k-th invocation, "
-    "or never within the horizon; optionally the action raises at its k-th invocation; the clock is driven by 1..4 "
+    "or never within the horizon; optionally the action raises at its k-th invocation an exception of a generated type (Tagged, TypeError, ValueError, KeyError, AttributeError, StopIteration, custom subclass, falsy exception object); the clock is driven by 1..4 "
     "advance_to/advance_by chunks (or start() when the work is known to stop). Oracle (closed form): the invocation log "
     "[clock, state] is exactly the prefix [(t0+k*period, f^(k-1)(s0)) for k=1..n] (None is threaded like any other "
     "state, see periodicscheduler.py), n = the number of periods within the horizon cut by dispose/raise (a tick at "
@@ -116,7 +116,7 @@ class _Driver:
         try:
             call()
             return True
-        except Tagged as ex:
+        except Exception as ex:  # noqa: BLE001 - recorded; the oracle demands it is exactly the raised object
             self.escapes.append(ex)
             self.inner.stop()
             return False
@@ -159,7 +159,7 @@ def _run_periodic(case):
         horizon = 10**9
     lo, hi = _expected_count(period, horizon, stop, raise_at)
 
-    def action(state):
+    def action(state="<called-without-state>"):
         k = len(log) + 1
         if k > hi + 3:
             raise _Runaway()  # periodic work that should have stopped goes on: break out of start()/advance_*
@@ -167,7 +167,7 @@ def _run_periodic(case):
         if stop is not None and stop[0] == "in" and k == stop[1]:
             holder["d"].dispose()
         if raise_at is not None and k == raise_at:
-            ex = Tagged(f"tick{k}")
+            ex = make_exc(case.get("exc") or "tagged", f"tick{k}")
             raised.append(ex)
             raise ex
         return f(state)
@@ -210,6 +210,7 @@ def _run_periodic(case):
             cls.append("dispose-tie-with-tick")
     if raise_at is not None and hi >= raise_at:
         cls.append("raise-reached")
+        cls.append("raised:" + (case.get("exc") or "tagged"))
     if case["f"] == "none" or case["s0"] == "none":
         cls.append("none-state")
     if use_start:
@@ -217,15 +218,15 @@ def _run_periodic(case):
     if len(case["steps"]) > 1:
         cls.append("chunked-advance")
     culprit = kind
+    if n > hi:
+        why = "after-raise" if (raise_at is not None and n > raise_at) else ("after-dispose" if stop is not None else "beyond-horizon")
+        return FAIL(f"invoked-{why}|{culprit}", f"{n} invocations, expected at most {hi}; log={log[:10]} case={case}", classes=cls)
     for i in range(n):
         if i >= len(ideal) or log[i][0] != ideal[i][0]:
             exp_t = ideal[i][0] if i < len(ideal) else None
             return FAIL(f"tick-time|{culprit}", f"invocation #{i + 1} at {log[i][0]}, expected {exp_t}; log={log[:8]} case={case}", classes=cls)
         if log[i][1] != ideal[i][1]:
             return FAIL(f"state-threading|{culprit}", f"invocation #{i + 1} got state {log[i][1]}, expected {ideal[i][1]}; log={log[:8]} case={case}", classes=cls)
-    if n > hi:
-        why = "after-raise" if (raise_at is not None and n > raise_at) else ("after-dispose" if stop is not None else "beyond-horizon")
-        return FAIL(f"invoked-{why}|{culprit}", f"{n} invocations, expected at most {hi}; log={log[:10]} case={case}", classes=cls)
     if n < lo:
         return FAIL(f"missing-ticks|{culprit}", f"{n} invocations, expected at least {lo}; log={log[:10]} case={case}", classes=cls)
     # the exception surfaces iff the raising invocation happened
@@ -354,6 +355,7 @@ def _periodic_cases():
                 "s0": st.sampled_from(sorted(_S0)),
                 "stop": stop,
                 "raise_at": st.one_of(st.none(), st.none(), st.integers(1, 8)),
+                "exc": st.sampled_from(EXC_TYPES + ("type",)),
                 "verdict": st.booleans(),
                 "steps": _steps,
                 "start": st.booleans(),
